@@ -156,13 +156,14 @@ pub fn run(ctx: &mut Ctx) {
     crate::spec::assert_spec_matches::<V>(&rs);
     let n = ctx.tier.pick(5, 6);
     let doc_nodes = ctx.tier.pick(4, 5);
-    ctx.meta("rule", "cases: (input, configuration) pairs; inputs = every string over the 18-byte alphabet Σ up to length n, every document of T∘E (all known/unknown-size choices, non-canonical payloads, width deviations) and every single mutation of it (each byte replaced by each Σ byte, each byte deleted, each truncation, each mid-document suffix), documents longer than the 64 KiB buffer with 9..16-byte headers at every alignment around the buffer boundary, and size-boundary documents (payload / content 123..128, 16379..16384 bytes in minimal and wider size fields); configurations = 8 tolerance subsets x buffered sets x capacity {default,16}. Oracle: for each Ok item, RefCodec decodes the header at the reported offset of the *input*; id, decoded value, End/Full offsets and contiguity of non-End items are compared, up to the first error. Non-trivial: parses that emit >= 2 non-End items.");
+    ctx.meta("rule", "cases: (input, configuration) pairs; inputs = every string over the 18-byte alphabet Σ up to length n, every document of T∘E (all known/unknown-size choices, non-canonical payloads, width deviations) and every single mutation of it (each byte replaced by each Σ byte, each byte deleted, each truncation, each mid-document suffix), every document with one master child renamed to its parent's id (same-id nesting, hierarchy problems tolerated, that id buffered), documents longer than the 64 KiB buffer with 9..16-byte headers at every alignment around the buffer boundary, and size-boundary documents (payload / content 123..128, 16379..16384 bytes in minimal and wider size fields); configurations = 8 tolerance subsets x buffered sets x capacity {default,16}. Oracle: for each Ok item, RefCodec decodes the header at the reported offset of the *input*; id, decoded value, End/Full offsets and contiguity of non-End items are compared, up to the first error. Non-trivial: parses that emit >= 2 non-End items.");
     ctx.meta("bounds", &format!("Σ* length <= {}; documents <= {} elements over V with 1 encoding deviation; all single mutations", n, doc_nodes));
     ctx.meta("assumptions", "payload bytes outside the representative classes are only copied (data independence) || tiling after a Full item is only checked when its size is known and oversized children are not tolerated");
     ctx.expect_nonzero("full_items_seen");
     ctx.expect_nonzero("raw_items_seen");
     ctx.expect_nonzero("buffer_boundary_docs");
     ctx.expect_nonzero("size_boundary_docs");
+    ctx.expect_nonzero("same_id_nesting_buffered");
     let cfgs = configs(ctx.quick());
     // Σ*
     let (shard, nshards) = (ctx.shard, ctx.nshards);
@@ -187,6 +188,43 @@ pub fn run(ctx: &mut Ctx) {
         }
         // mutations only of the deviation-free encodings, strict + fully tolerant + two mixed configurations
         let plain = doc_is_plain(doc);
+        if plain {
+            // a master nested in a master of the SAME id (hierarchy problems tolerated), that id buffered: every master
+            // child of a master takes its parent's id in turn
+            let mut slot = 0usize;
+            loop {
+                let mut d2 = doc.clone();
+                let mut k = 0usize;
+                let mut parent_id: Option<u64> = None;
+                fn rename(nodes: &mut [crate::refmodel::Node], k: &mut usize, slot: usize, out: &mut Option<u64>) {
+                    for n in nodes.iter_mut() {
+                        let pid = n.id;
+                        if let crate::refmodel::Kind::Master(ch) = &mut n.kind {
+                            for c in ch.iter_mut() {
+                                if c.is_master() {
+                                    if *k == slot && out.is_none() {
+                                        c.id = pid;
+                                        *out = Some(pid);
+                                    }
+                                    *k += 1;
+                                }
+                            }
+                            rename(ch, k, slot, out);
+                        }
+                    }
+                }
+                rename(&mut d2, &mut k, slot, &mut parent_id);
+                let Some(pid) = parent_id else { break };
+                slot += 1;
+                let (b2, _) = ref_encode(&d2);
+                for allow in [crate::obs::ALLOW_HIER, 7u8] {
+                    let mut c = Cfg::strict().with_allow(allow).with_buffered(&[pid]);
+                    c.max_size = MaxSize::Limit(1 << 16);
+                    ctx.count("same_id_nesting_buffered", 1);
+                    run_one(ctx, &rs, &b2, &c, "same-id-nesting");
+                }
+            }
+        }
         if plain {
             let bounds: Vec<usize> = lay.iter().map(|l| l.tag_start).collect();
             docs::for_each_mutation(&bytes, &bounds, &SIGMA, &kinds, &mut |m, _k, _pos| {
